@@ -197,7 +197,7 @@ pub struct Isolated {
 
 impl Isolated {
     pub fn new() -> Isolated {
-        Isolated { proc_: None, wd: Watchdog::start(env_u64("VERIF_WATCHDOG_S", 20)) }
+        Isolated { proc_: None, wd: Watchdog::start(env_u64("VERIF_WATCHDOG_S", 60)) }
     }
     pub fn run(&mut self, spec: &ScenarioSpec) -> Result<RunReport, String> {
         if self.proc_.is_none() {
@@ -523,7 +523,7 @@ pub fn check(prop: &str, tier: Tier) -> i32 {
     println!("simctl check {} {} VERIF_SEED={} workers={}", prop, tier.name(), master, workers);
     let chunk = if limit < u64::MAX / 8 { (limit / (workers as u64 * 6)).clamp(1, 128) } else { props::thorough_chunk(prop) };
     let shared = Arc::new(Shared { next: Mutex::new(0), limit, chunk, deadline, stop: AtomicBool::new(false), results: Mutex::new(Collected::default()) });
-    let wd = Arc::new(Watchdog::start(env_u64("VERIF_WATCHDOG_S", 20)));
+    let wd = Arc::new(Watchdog::start(env_u64("VERIF_WATCHDOG_S", 60)));
     let known_arc = Arc::new(known.clone());
     let mut hs = vec![];
     for _ in 0..workers {
@@ -569,6 +569,7 @@ pub fn check(prop: &str, tier: Tier) -> i32 {
 
     // triage: one finding per distinct signature
     let mut findings: Vec<Finding> = vec![];
+    let mut unconfirmed_stalls: u64 = 0;
     let mut seen_sig: BTreeSet<String> = BTreeSet::new();
     let mut iso = Isolated::new();
     for (index, v) in &col.violations {
@@ -605,6 +606,14 @@ pub fn check(prop: &str, tier: Tier) -> i32 {
             Some(cv) => {
                 col.harness_errors.push(format!("run index {} reported {} but isolated re-run reported {}", index, v.sig(), cv.sig()));
                 (original.clone(), v.clone())
+            }
+            None if v.kind == "watchdog" => {
+                // The only oracle measured in real seconds. A run that went silent in the pool but completes when
+                // re-executed alone was starved by the machine (other processes, 16 workers), not stalled: it is
+                // not a finding. A genuine stall is deterministic and stalls again here.
+                eprintln!("NOTE run index {} went silent for the watchdog period in the worker pool but completed when re-run in isolation: machine load, not reported", index);
+                unconfirmed_stalls += 1;
+                continue;
             }
             None => {
                 col.harness_errors.push(format!("run index {} reported {} but isolated re-run reported nothing", index, v.sig()));
@@ -686,6 +695,7 @@ pub fn check(prop: &str, tier: Tier) -> i32 {
             "determinism_audit": {"rechecked": if early_stop { 0 } else { audited }, "mismatches": col.harness_errors.iter().filter(|e| e.starts_with("determinism audit")).count()},
             "sampled_run_digest": format!("{:016x}", sample_digest),
             "worker_restarts": col.worker_restarts,
+            "stalls_not_confirmed_in_isolation": unconfirmed_stalls,
             "stopped_early_on_violations": early_stop,
             "known_finding_hits": col.known_counts,
             "workers": workers,
